@@ -83,7 +83,7 @@ ERRS = {'LagtimeError': 'Err.lagtime', 'ValueError': 'Err.value', 'TypeError': '
 
 def parse_type(s):
     s = s.strip()
-    if s in ('Int', 'Rat', 'Bool', 'Dict', 'Unit'):
+    if s in ('Int', 'Rat', 'Bool', 'Dict', 'Unit', 'Cx'):
         return s
     if s.startswith('L[') and s.endswith(']'):
         return ('L', parse_type(s[2:-1]))
